@@ -65,8 +65,9 @@ class ConstantUnitaryGate(Gate, CachedClass):
     def __eq__(self, other: object) -> bool:
         return (
             isinstance(other, ConstantUnitaryGate)
+            and self.radixes == other.radixes
             and self._utry == other._utry
         )
 
     def __hash__(self) -> int:
-        return hash(self._utry)
+        return hash((self._utry, self.radixes))
